@@ -344,7 +344,9 @@ func (d *driver) runMultiproof(w emitter, pid int, pr *proofProg) {
 				firstOf[&fs[i][0]] = i
 				gfs[i] = guardSlice(&g, fs[i], fsent)
 			}
-			proof, err = multiproof.CreateMultiProof(ptr, cfg, gCs, gfs, gzs)
+			mustReturn(fmt.Sprintf("CreateMultiProof with %d openings", len(gCs)), func() {
+				proof, err = multiproof.CreateMultiProof(ptr, cfg, gCs, gfs, gzs)
+			})
 			for i := range fs {
 				copy(fs[i], gfs[i])
 			}
@@ -420,7 +422,9 @@ func (d *driver) runMultiproof(w emitter, pid int, pr *proofProg) {
 				pg := &multiproof.MultiProof{D: pf.D}
 				pg.IPA.L, pg.IPA.R, pg.IPA.A_scalar = guardSlice(&g, pf.IPA.L, sent), guardSlice(&g, pf.IPA.R, sent), pf.IPA.A_scalar
 				gcs, gyv, gzv := guardSlice(&g, cs, &sent), guardSlice(&g, yv, &ysent), guardSlice(&g, zv, uint8(0xa5))
-				ok, verr = multiproof.CheckMultiProof(vtr, cfg, pg, gcs, gyv, gzv)
+				mustReturn(fmt.Sprintf("CheckMultiProof with %d openings", len(gcs)), func() {
+					ok, verr = multiproof.CheckMultiProof(vtr, cfg, pg, gcs, gyv, gzv)
+				})
 				copy(cs, gcs)
 				copy(yv, gyv)
 				copy(zv, gzv)
@@ -935,7 +939,7 @@ func (d *driver) runIPA(w emitter, pid int, pr *proofProg) {
 		var fsent fr.Element
 		fsent.SetUint64(0xdecaf)
 		gf := guardSlice(&g, f, fsent)
-		proof, err = ipa.CreateIPAProof(tr, cfg, C, gf, ptf)
+		mustReturn("CreateIPAProof", func() { proof, err = ipa.CreateIPAProof(tr, cfg, C, gf, ptf) })
 		copy(f, gf)
 		e["tails_unchanged"] = g.ok()
 	}()
@@ -1014,7 +1018,7 @@ func (d *driver) runIPA(w emitter, pid int, pr *proofProg) {
 			}()
 			var g tailGuard
 			pg := ipa.IPAProof{L: guardSlice(&g, proof.L, cfg.SRS[9]), R: guardSlice(&g, proof.R, cfg.SRS[9]), A_scalar: proof.A_scalar}
-			ok, verr = ipa.CheckIPAProof(vtr, cfg, C, pg, ptf, res)
+			mustReturn("CheckIPAProof", func() { ok, verr = ipa.CheckIPAProof(vtr, cfg, C, pg, ptf, res) })
 			ve["tails_unchanged"] = g.ok()
 		}()
 		ve["ok"] = ok
